@@ -139,3 +139,64 @@ def ob_a(ob):
     tw2 = make_slice("twin_filler", "basic", N, dict(data=1, c=(0, N + 1), v=0, f=0, xyz=0, pr=0, ck=0, steps=N))
     tw2.prelude += "import seqm.MolecularDynamics as _MD\n_orig=_MD.HDF5Writer._n_timepoints\n_MD.HDF5Writer._n_timepoints=staticmethod(lambda steps, stride, include_initial=False: _orig(steps, stride, include_initial) + (1 if stride == 2 else 0))\n"
     _run(ob, slices + [tw, tw2], expect_cex=("twin_reach", "twin_filler"))
+
+
+def replay_resume_cursor(data, c, v, f, tdm, na, nexc, step_offset, steps):
+    from . import md_props as P
+
+    bad = P.resume_cursor_violations(data, c, v, f, tdm, na, nexc, step_offset, steps)
+    for b in bad:
+        print("  ", b)
+    return bool(bad)
+
+
+@obligation(PID, "b", title="resumed runs: after re-opening an existing file at any step, the row cursor of every stream (data, coordinates, velocities, forces, transition densities, nonadiabatic) equals the number of rows a run up to that step has written at the stream's own cadence")
+def ob_b(ob):
+    import seqm.MolecularDynamics as MD
+
+    ob.encodes(MD.HDF5Writer.open, MD.HDF5Writer._open_resume, MD.HDF5Writer._create_new)
+    quick = ob.tier == "quick"
+    N = 3 if quick else 4
+    ob.bound("cadences of the six streams symbolic ints in [0,%d] (three at a time, the others fixed), resume step symbolic in [1,8], with and without excited states; real open/_create_new/_open_resume over the in-memory h5py" % N)
+    pre = "from harness import md_props as P, mdsim as M\nM.install(); M.make_molecule(1)\n"
+    R = "0 <= %s <= " + str(N)
+    slices = []
+    combos = [("data", "tdm", "na"), ("c", "v", "na"), ("data", "f", "na"), ("data", "c", "tdm")]
+    for nexc in (2, 0):
+        for sym in combos:
+            fixed = {"data": 1, "c": 2, "v": 0, "f": 1, "tdm": 0, "na": 1}
+            args = ", ".join(k if k in sym else str(fixed[k]) for k in ("data", "c", "v", "f", "tdm", "na"))
+            sig = ", ".join("%s: int" % k for k in sym) + ", off: int"
+            prec = " and ".join(R % k for k in sym) + " and 1 <= off <= 8"
+            body = "return P.resume_cursor_violations(%s, %d, off, 8) == []" % (args, nexc)
+            sl = chrun.Slice("R%d_%s" % (nexc, "".join(s_[0] for s_ in sym)), pre, sig, prec, body, "_", 400)
+            sl.meta = dict(sym=sym, fixed=fixed, nexc=nexc)
+            slices.append(sl)
+    res = chrun.run_slices(slices, jobs=8)
+    for sl, r in zip(slices, res):
+        ob.paths += 1
+        ob.ch_conditions += 1
+        ob.ch_definite += r["verdict"] in ("confirmed", "counterexample")
+        ob.sample({"slice": sl.name, "pre": sl.pre, "verdict": r["verdict"], "seconds": r["seconds"], "call": r.get("call")})
+        if r["verdict"] == "confirmed":
+            ob.discharged(sl.name)
+        elif r["verdict"] == "counterexample":
+            vals = chrun.parse_int_args(r["args"])
+            d = dict(sl.meta["fixed"])
+            for k, val in zip(sl.meta["sym"], vals[:-1]):
+                d[k] = val
+            kw = dict(data=d["data"], c=d["c"], v=d["v"], f=d["f"], tdm=d["tdm"], na=d["na"], nexc=sl.meta["nexc"], step_offset=vals[-1], steps=8)
+            print("counterexample from CrossHair:", r["call"])
+            from . import md_props as P
+
+            bad = P.resume_cursor_violations(**kw)
+            if bad:
+                for b in bad:
+                    print("  ", b)
+                ob.violation("resume at step %d with cadences %s, %d excited states: %s" % (vals[-1], {k: kw[k] for k in ("data", "c", "v", "f", "tdm", "na")}, kw["nexc"], "; ".join(bad)[:300]), {"module": "harness.C11", "func": "replay_resume_cursor", "args": kw})
+            else:
+                raise HarnessError("resume-cursor counterexample did not reproduce: %s" % r["call"])
+        elif r["verdict"] == "inconclusive":
+            ob.inconclusive(sl.name)
+        else:
+            raise HarnessError("crosshair failed on %s:\n%s" % (sl.name, r["raw"][-1000:]))
